@@ -298,6 +298,7 @@ def docs_meshes(ctx, k):
     ctx.reached("docs-meshes-loaded", loaded)
 
 
+SUITE = True   # thorough tier also runs the repository suite with this oracle attached (rv/suite_monitors.py)
 FAMILIES = [Family("gen-" + kd, gen_case(kd), quick=q, thorough=th)
             for kd, q, th in (("line", 20, 400), ("tri", 40, 1600), ("quad", 30, 1200), ("tet", 24, 800),
                               ("hex", 20, 640), ("wedge", 14, 480))]
